@@ -1,12 +1,14 @@
 (* Model of the GROUP BY key encoders and of grouping by the encoded key (C04; used by C09).
-   Code anchors (rulego/streamsql, after the `fix:` commits that made the four sites share one
-   encoder):
-     utils/cast/groupkey.go          GroupKeyPart, groupTypeKey   (the encoder)
+   Code anchors (rulego/streamsql, after the `fix:` commits):
+     utils/cast/groupkey.go          GroupKeyPart, groupTypeKey   (length-prefixed encoder: aggregator)
+     utils/cast/groupkey_escape.go   EscapeGroupKeyText, GroupKeyNull (escaping encoder: the windows)
      aggregator/group_aggregator.go  GroupAggregator.Add (key := concatenation of GroupKeyPart),
                                      GetResults (one row per entry of ga.groups, typed key values)
      window/counting_window.go       getKey                      ("__global__" without keys)
      window/session_window.go        extractSessionCompositeKey  ("default" without keys)
      window/global_window.go         getKeyAndValues             ("__global__" without keys)
+   The three window sites keep their '|'-joined text keys (a value without '|' and '\' keeps
+   exactly its old text), but escape '\' and '|' inside a column and write NULL as "\N".
    The encoders as they were written before the repair (separator-joined text) are kept below
    ([enc_old_agg], [enc_old_win]) for the history theorems C04_*_old_refuted. *)
 From SV Require Export Base.Bytes.
@@ -91,16 +93,62 @@ Record krow : Type := mkKRow { krid : Z; kvals : list (option kvalue) }.
 Definition knorm (o : option kvalue) : kvalue := match o with Some v => v | None => KNull end.
 Definition ktuple_of (r : krow) : list kvalue := map knorm (kvals r).
 
+(* ---- the escaping encoder of the three window sites ---------------------------------------
+   EscapeGroupKeyText: '\' -> "\\", '|' -> "\|"; NULL/missing -> GroupKeyNull = "\N"; columns joined
+   by '|'. The text of a non-string scalar is what the site always used (cast.ToString in the
+   counting and session windows, %v in the global window): decimal digits for an integral
+   number, "true"/"false", and for a non-integral float the rendering the site produces, which
+   the model receives as text ([KFlt]). *)
+Definition k_bslash : byte := 92%N.  (* '\' *)
+Fixpoint k_esc (s : bytes) : bytes :=
+  match s with
+  | [] => []
+  | c :: s' => if N.eqb c k_bslash || N.eqb c k_bar then k_bslash :: c :: k_esc s' else c :: k_esc s'
+  end.
+Definition k_null_mark : bytes := [92; 78]%N.   (* "\N" *)
+Definition k_col_text (v : kvalue) : bytes :=
+  match v with
+  | KNull => k_null_mark
+  | KStr s => k_esc s
+  | KInt z => k_esc (k_dec_Z z)
+  | KFlt t => k_esc t
+  | KBool true => [116; 114; 117; 101]%N
+  | KBool false => [102; 97; 108; 115; 101]%N
+  end.
+Fixpoint k_join_bar (ps : list bytes) : bytes :=   (* strings.Join(parts, "|") *)
+  match ps with
+  | [] => []
+  | [p] => p
+  | p :: ps' => p ++ k_bar :: k_join_bar ps'
+  end.
+Definition enc_win (vs : list kvalue) : bytes := k_join_bar (map k_col_text vs).
+
 (* per-site keys *)
 Definition agg_key (r : krow) : bytes := enc_tuple (ktuple_of r).
 Definition s_global : bytes := [95; 95; 103; 108; 111; 98; 97; 108; 95; 95]%N.  (* "__global__" *)
 Definition s_default : bytes := [100; 101; 102; 97; 117; 108; 116]%N.            (* "default" *)
 Definition tuple_key (nokeys : bytes) (t : list kvalue) : bytes :=
-  match t with [] => nokeys | _ => enc_tuple t end.
+  match t with [] => nokeys | _ => enc_win t end.
 Definition win_key (nokeys : bytes) (r : krow) : bytes := tuple_key nokeys (ktuple_of r).
 Definition cnt_key := win_key s_global.   (* counting_window.go getKey *)
 Definition glb_key := win_key s_global.   (* global_window.go getKeyAndValues *)
 Definition ses_key := win_key s_default.  (* session_window.go extractSessionCompositeKey *)
+
+(* the property quantifies over ONE scalar type per grouping column (plus NULL): a schema gives
+   each column its kind, and a tuple conforms if every value is NULL or of its column's kind.
+   (The window keys are text: the number 30 and the string "30" in one column would share a key;
+   that input class is outside the property's quantifier.) *)
+Inductive kkind : Type := KdStr | KdInt | KdFlt | KdBool.
+Definition of_kind (k : kkind) (v : kvalue) : Prop :=
+  match v, k with
+  | KNull, _ => True
+  | KStr _, KdStr => True
+  | KInt _, KdInt => True
+  | KFlt _, KdFlt => True
+  | KBool _, KdBool => True
+  | _, _ => False
+  end.
+Definition conforms (sch : list kkind) (t : list kvalue) : Prop := Forall2 of_kind sch t.
 
 (* ---- grouping by the encoded key (GroupAggregator.Add / GetResults; the per-key maps of the
    session and global windows have the same shape). The state is the Go map as an association
@@ -149,10 +197,4 @@ Definition k_old_text (null : bytes) (v : kvalue) : bytes :=
 Definition enc_old_agg (vs : list kvalue) : bytes :=
   concat (map (fun v => k_old_text [0; 78; 85; 76; 76]%N v ++ [31%N]) vs).
 (* windows: strings.Join(parts, "|"), NULL/missing = "" *)
-Fixpoint k_join_bar (ps : list bytes) : bytes :=
-  match ps with
-  | [] => []
-  | [p] => p
-  | p :: ps' => p ++ k_bar :: k_join_bar ps'
-  end.
 Definition enc_old_win (vs : list kvalue) : bytes := k_join_bar (map (k_old_text []) vs).
